@@ -4,7 +4,7 @@ from vlib import std, lab, common
 
 PID = "C60"
 META = {
-    "text": "Theorems (Properties_C60.v, all closed under the global context) about IcapModel.v, a branch-for-branch transcription of ModXact (state.writing/parsing/sending, Preview, the two VirginBodyAct offsets, virginConsume, canStartBypass/protectGroupBypass, handle100Continue/200Ok/204NoContent/UnknownScode, prepEchoing, echoMore, parseBody, stopBackup, bypassFailure, callException, swanSong), Xaction I/O events, Launcher/Iterator::handleAdaptationError and the two consumers (ClientHttpRequest::handleAdaptationFailure, Client::handleAdaptationAborted). For ALL configurations and ALL sequences of asynchronous calls (connect, write done/failed, virgin data/end/abort, ICAP reply tokens in any segmentation, EOF, I/O stop, timeout, consumer space/abort, initiator abort), by an inductive invariant over the job: C60_icap_output_trichotomy - the bytes on the adapted body pipe are nothing while no adapted head exists, exactly the first s_off bytes of the virgin body (and no adapted payload was ever accepted) when the head is the virgin clone, exactly the adapted payload parsed from the ICAP reply when the head came from the reply, and the forwarded head is that head object (never a mixture); C60_virgin_answer_excludes_adapted_content / C60_adapted_answer_excludes_virgin_content (bypass/204 only while no adapted byte was used, and conversely); C60_delivery_trichotomy - what the HTTP side gets is a purely virgin message, a purely adapted message, the untouched virgin request (REQMOD, bypass=1, body pipe unconsumed) or an error; C60_bypass_on_thrown_failure_partial - for every state with bypass enabled, no adapted head, answer still owed and the backup usable, any exception forwards the virgin head; C60_bypass_on_failure_refuted - the bypass clause at full strength is FALSE (witness: ICAP 500 inside the preview with bypass=1 ends in ERR_ICAP_FAILURE) - known findings; C60_status_dispatch / C60_writing_enum_order re-check the regenerated switch of parseIcapHead and the order of State::Writing. Tie: pipe capacity/backup limit, enum order and status switch regenerated from the source each run; the extracted model is diffed against the real squid (built from the working tree) between a scripted origin, a scripted ICAP server (lab/icap_stub.py) and a raw client on generated REQMOD/RESPMOD transactions (preview sizes around the body size, known/unknown/large bodies, 200/204/100-Continue/error status/garbage/close/reset/truncation at every stage, request satisfaction), including the advertised Preview size, ieof and Allow: 204 seen on the wire.",
+    "text": "Theorems (Properties_C60.v, all closed under the global context) about IcapModel.v, a branch-for-branch transcription of ModXact (state.writing/parsing/sending, Preview, the two VirginBodyAct offsets, virginConsume, canStartBypass/protectGroupBypass, handle100Continue/200Ok/204NoContent/UnknownScode, prepEchoing, echoMore, parseBody, stopBackup, bypassFailure, callException, swanSong), Xaction I/O events, Launcher/Iterator::handleAdaptationError and the two consumers (ClientHttpRequest::handleAdaptationFailure, Client::handleAdaptationAborted). For ALL configurations and ALL sequences of asynchronous calls (connect, write done/failed, virgin data/end/abort, ICAP reply tokens in any segmentation, EOF, I/O stop, timeout, consumer space/abort, initiator abort), by an inductive invariant over the job: C60_icap_output_trichotomy - the bytes on the adapted body pipe are nothing while no adapted head exists, exactly the first s_off bytes of the virgin body (and no adapted payload was ever accepted) when the head is the virgin clone, exactly the adapted payload parsed from the ICAP reply when the head came from the reply, and the forwarded head is that head object (never a mixture); C60_virgin_answer_excludes_adapted_content / C60_adapted_answer_excludes_virgin_content (bypass/204 only while no adapted byte was used, and conversely); C60_delivery_trichotomy - what the HTTP side gets is a purely virgin message, a purely adapted message, the untouched virgin request (REQMOD, bypass=1, body pipe unconsumed) or an error; C60_bypass_on_thrown_failure_partial - for every state with bypass enabled, no adapted head, answer still owed and the backup usable, any exception forwards the virgin head; C60_bypass_on_failure_refuted - the bypass clause at full strength is FALSE (witness: `ICAP 200` then close inside the encapsulated HTTP head with bypass=1 ends in ERR_ICAP_FAILURE; an ICAP error status is bypassed since /repo 0ccad7c) - known findings; C60_status_dispatch / C60_writing_enum_order re-check the regenerated switch of parseIcapHead and the order of State::Writing. Tie: pipe capacity/backup limit, enum order and status switch regenerated from the source each run; the extracted model is diffed against the real squid (built from the working tree) between a scripted origin, a scripted ICAP server (lab/icap_stub.py) and a raw client on generated REQMOD/RESPMOD transactions (preview sizes around the body size, known/unknown/large bodies, 200/204/100-Continue/error status/garbage/close/reset/truncation at every stage, request satisfaction), including the advertised Preview size, ieof and Allow: 204 seen on the wire.",
     "note": "partial: the theorems are about the transcribed state machine (IcapModel.v) with reply parsing abstracted to tokens; that the event-driven proxy behaves like it, that Store/client-side/server-side relay the adapted pipe unchanged, and that a message ended nicely carries the WHOLE virgin/adapted body (body intact, 204 => complete virgin message) rest on the end-to-end correspondence and the oracle, not on a theorem; that the answer is sent at most once holds by construction of sendAnswer (initiator flag) and is not stated as a theorem. Assumed configuration: icap_persistent_connections off, icap_retry_limit 0, no 206, single service per rule. Trusted: Coq kernel, extraction, gen/icap_consts.py, vlib/lab.py, lab/icap_stub.py.",
     "technique": "Coq proof (inductive invariant over all event sequences of a transcribed job state machine; vm_compute witness for the refuted clause; regenerated dispatch table) + end-to-end differential correspondence of the extracted model against the running squid + independent oracle",
 }
@@ -353,9 +353,7 @@ def oracle(s, obs):
         return ("oracle:adapted-after-failure", "no adapted message was completed by the service, yet adapted content was delivered")
     if s["bypass"]:
         if cls != "virgin":
-            if k == "status":
-                why = "icap-status"
-            elif k == "200":
+            if k == "200":
                 why = "after-200-head"
             elif after100 and not a204:
                 why = "after-100-unbuffered"
